@@ -5,6 +5,24 @@ set_option linter.unusedSimpArgs false
 namespace OpcuaVerif.C05
 open OpcuaVerif.Text OpcuaVerif.C04 OpcuaVerif.Generated.RefTypes
 
+/-! Source pins. `tools/translate/reftypes.py` regenerates these constants from relative_path.rs on every check; the
+hand-written matchers and loop of `Model/C05.lean` implement exactly these values, so a change of a regex, of a comparison
+at a use site of the limits, of a delimiter, or of a flag row breaks the build here until the model is revisited. -/
+theorem pin_reElem : reElem =
+    "(?s)(?P<reftype>/|\\.|(<(?P<flags>#|!|#!)?((?P<nsidx>[0-9]+):)?(?P<name>(?:&.|[^&>#!])(?:&.|[^&>])*)>))(?P<target>.*)" := rfl
+theorem pin_reTarget : reTarget = "(?s)((?P<nsidx>[0-9]+):)?(?P<name>.*)" := rfl
+/-- `tokLoop`'s `check`: `utf8Len tok > maxTokenLen → failed` -/
+theorem pin_tokenLenGuard : tokenLenGuard = (">", "return Err(())") := rfl
+/-- `tokStep`: `elems.length = maxElements → broke`; `finishLoop`: `… → none` -/
+theorem pin_elementsGuards : elementsGuards = [("==", "break"), ("==", "return Err(())")] := rfl
+theorem pin_tokenizer : escapeChar = '&' ∧ delims = ['/', '.', '<'] := ⟨rfl, rfl⟩
+theorem pin_shortForms :
+    shortForms = [('/', hierarchicalReferences, true, false), ('.', aggregates, true, false)] := rfl
+theorem pin_flags :
+    flagRows = [(['#'], false, false), (['!'], true, true), (['#', '!'], false, true)] ∧ noFlags = (true, false) := ⟨rfl, rfl⟩
+theorem pin_printer : alwaysUseNamespace = true := rfl
+theorem pin_nsIndexTypes : nsIndexTypes = ("u16", "u16") := rfl
+
 /-- escape unit of a char when the chars in `E` have been escaped so far -/
 def enc (E : List Char) (c : Char) : List Char := if c ∈ E then ['&', c] else [c]
 
@@ -496,10 +514,11 @@ theorem elem_roundtrip (e : Elem) (bn : List Char) (h : GoodElem e bn) :
           simp [current, b4, unescape_escapeBN]
         simp only [b5, htn, b3, hun, b1, b2]
         have hres := href.resolve
+        have hnr : current.noResolver = false := rfl
         by_cases hns : ref.ns = 0
-        · simp [hns] at hres ⊢; simp [hres]
+        · simp [hns, hnr] at hres ⊢; simp [hres]
         · have hne0 : toDec ref.ns ≠ ['0'] := fun e => hns (toDec_eq_zero e)
-          simp [hns, hne0, parseUnsigned_toDec href.ns_le, hres]
+          simp [hns, hnr, hne0, parseUnsigned_toDec href.ns_le, hres]
 
 /-! ### the tokenizer loop -/
 
